@@ -531,6 +531,22 @@ def extract():
         raise ExtractError("server handler: the test that marks a stream as UDP-over-TCP is not a modelled rule")
     g["udpMagicAddr"] = one(r'pub const UDP_OVER_TCP_MAGIC_ADDR\s*:\s*&str\s*=\s*"([^"\\]*)";',
                             strip_comments(read("src/client/udp_client.rs")), "UDP_OVER_TCP_MAGIC_ADDR").group(1)
+    # ---- the key under which a session sits in the idle map, and where it comes from -----------
+    pool_src = strip_comments(read("src/client/session_pool.rs"))
+    add_body = fn_body(pool_src, r"pub async fn add_idle_session\s*\(&self,\s*session:\s*Arc<Session>\)\s*\{", "SessionPool::add_idle_session")
+    add_flat = re.sub(r"\s+", "", add_body)
+    if "letseq=session.seq();" in add_flat and "sessions.insert(seq,pooled);" in add_flat and len(re.findall(r"\blet\s+(?:mut\s+)?seq\b", add_body)) == 1 and "letmutseq" not in add_flat \
+            and "set_seq" not in add_body and "next_seq" not in add_body:
+        g["poolKey"] = "sessionSeq"
+    else:
+        raise ExtractError("SessionPool::add_idle_session: the map key is not `let seq = session.seq(); .. sessions.insert(seq, pooled)`")
+    cns_flat = re.sub(r"\s+", "", cns)
+    if re.search(r"staticSEQ_COUNTER:std::sync::atomic::AtomicU64=std::sync::atomic::AtomicU64::new\(\d+\);"
+                 r"letseq=SEQ_COUNTER\.fetch_add\(1,std::sync::atomic::Ordering::SeqCst\);session\.set_seq\(seq\);", cns_flat) \
+            and len(re.findall(r"set_seq\(", cns)) == 1:
+        g["seqSource"] = "processCounter"
+    else:
+        raise ExtractError("Client::create_new_session: the session's seq is not taken from one process-wide fetch_add(1) counter")
     # ---- the authentication gate of a server connection -------------------------------------
     g["authGate"] = auth_gate()
     return g
@@ -694,6 +710,20 @@ def render(g):
     a("")
     a("/-- the destination the client opens for a UDP association (`UDP_OVER_TCP_MAGIC_ADDR`) -/")
     a("def udpMagicAddr : List Char := [" + ", ".join("'" + c + "'" for c in g["udpMagicAddr"]) + "]")
+    a("")
+    a("/-- the key of a session in the idle map (`add_idle_session`) -/")
+    a("inductive PoolKey where")
+    a("  | sessionSeq       -- the session's own `seq()`, unchanged")
+    a("  deriving DecidableEq, Repr")
+    a("")
+    a(f"def poolKey : PoolKey := .{g['poolKey']}")
+    a("")
+    a("/-- where `create_new_session` takes a new session's `seq` from -/")
+    a("inductive SeqSource where")
+    a("  | processCounter   -- one process-wide atomic counter, `fetch_add(1)` per session: never the same value twice")
+    a("  deriving DecidableEq, Repr")
+    a("")
+    a(f"def seqSource : SeqSource := .{g['seqSource']}")
     a("")
     a("/-- how `handle_connection` awaits `authenticate_client` before it builds the session -/")
     a("inductive AuthGate where")
